@@ -1,8 +1,38 @@
 //go:build verif
 
+// Contracts for package sbom, read by /verif/govc (comment-only file: with the
+// build tag off the compiler does not even parse it).
 package sbom
 
+// ---------------------------------------------------------------------------
+// Valid input values: repeated message fields hold no nil element.
+// ---------------------------------------------------------------------------
+
+//@ typeinv NodeList: (forall i int :: 0 <= i && i < len(self.Nodes) ==> self.Nodes[i] != nil) && (forall j int :: 0 <= j && j < len(self.Edges) ==> self.Edges[j] != nil)
+//@ typeinv Node: (forall i int :: 0 <= i && i < len(self.Suppliers) ==> self.Suppliers[i] != nil) && (forall j int :: 0 <= j && j < len(self.Originators) ==> self.Originators[j] != nil) && (forall k int :: 0 <= k && k < len(self.ExternalReferences) ==> self.ExternalReferences[k] != nil)
+//@ typeinv Person: forall i int :: 0 <= i && i < len(self.Contacts) ==> self.Contacts[i] != nil
+
+// ---------------------------------------------------------------------------
+// C11 (read-only operations leave operands unchanged): assigns \nothing
+// C12 (copies are independent values): owns
+// ---------------------------------------------------------------------------
+
 //@ func Person.Copy
-//@   requires p != nil
+//@   props C11, C12
+//@   assigns \nothing
+//@   owns
+
+//@ func ExternalReference.Copy
+//@   props C11, C12
+//@   assigns \nothing
+//@   owns
+
+//@ func Edge.Copy
+//@   props C11, C12
+//@   assigns \nothing
+//@   owns
+
+//@ func Node.Copy
+//@   props C11, C12
 //@   assigns \nothing
 //@   owns
